@@ -8,7 +8,8 @@ copied on the way in and on the way out, so two model vectors never share storag
 Calls outside the API's domain raise ``Invalid``: the real object must raise as well and must keep
 its state.  Semantics (pinned by probes against the real class, see DESIGN C11):
 
-* indexing is per axis ("outer"): int, slice, list/1-D array of ints; missing trailing axes = all;
+* indexing is per axis ("outer"): int (Python or NumPy, any width), slice, list / range / 1-D integer array of any
+  integer dtype; missing trailing axes = all;
   an expression made of ints only, one per axis, addresses one cell (array or None = unset);
   anything else addresses a block, returned as a vector with the per-axis selection lengths
   (int axes keep length 1) / as the row-major list of its cells (``get_data``);
@@ -47,6 +48,8 @@ def axis_positions(ix, n, neg_ok):
         return False, list(range(*ix.indices(n)))
     if ix is Ellipsis:
         return False, list(range(n))
+    if isinstance(ix, range):
+        ix = list(ix)  # a range is an explicit list of positions
     if isinstance(ix, (list, np.ndarray)):
         a = np.asarray(ix)
         if a.ndim != 1 or a.dtype.kind not in "iu":
